@@ -6,42 +6,6 @@ package ergo
 // comment + docs/spec.md); it is NOT read from validTransitions, so an edit of the map
 // shows up as a difference.
 
-func zzSixStates(s string) bool {
-	return s == "todo" || s == "doing" || s == "done" || s == "blocked" || s == "canceled" || s == "error"
-}
-
-func zzDocTransition(from, to string) bool {
-	if from == to {
-		return true
-	}
-	switch from {
-	case "todo":
-		return to == "doing" || to == "done" || to == "blocked" || to == "canceled"
-	case "doing":
-		return to == "todo" || to == "done" || to == "blocked" || to == "canceled" || to == "error"
-	case "blocked":
-		return to == "todo" || to == "doing" || to == "done" || to == "canceled"
-	case "done":
-		return to == "todo"
-	case "canceled":
-		return to == "todo"
-	case "error":
-		return to == "todo" || to == "doing" || to == "canceled"
-	}
-	return false
-}
-
-// zzClaimRule: claimed whenever doing or error; unclaimed whenever todo, done or canceled.
-func zzClaimRule(state, claimedBy string) bool {
-	switch state {
-	case "doing", "error":
-		return claimedBy != ""
-	case "todo", "done", "canceled":
-		return claimedBy == ""
-	}
-	return true
-}
-
 // zzOneItemGraph: a store holding one symbolic item (task or epic) plus whatever else the
 // bound allows; the step under test touches only that item.
 func zzStore(spec string) *Graph {
@@ -61,27 +25,6 @@ func zzStore(spec string) *Graph {
 		zzAssume(ok)
 	}
 	return g
-}
-
-// zzSetRequest builds an arbitrary update map over the keys buildSetEvents knows.
-func zzSetRequest() map[string]string {
-	updates := map[string]string{}
-	if zzBool("req.has.title") {
-		updates["title"] = zzString("req.title")
-	}
-	if zzBool("req.has.body") {
-		updates["body"] = zzString("req.body")
-	}
-	if zzBool("req.has.epic") {
-		updates["epic"] = zzString("req.epic")
-	}
-	if zzBool("req.has.claim") {
-		updates["claim"] = zzString("req.claim")
-	}
-	if zzBool("req.has.state") {
-		updates["state"] = zzString("req.state")
-	}
-	return updates
 }
 
 // One `set` step on a task, decided by the real buildSetEvents and applied by the real
